@@ -6,5 +6,19 @@ pub mod types {
     impl Type {
         pub fn bits(self) -> (r: u32) ensures r == self.bits_ { self.bits_ }
         pub fn bytes(self) -> (r: u32) ensures r == self.bits_ / 8 { self.bits_ / 8 }
+        // "Get an integer type with the requested number of bytes": I8 .. I128
+        pub fn int_with_byte_size(n: u16) -> (r: Option<Type>)
+            ensures (n == 1 || n == 2 || n == 4 || n == 8 || n == 16) ==> r == Some(Type { bits_: (n * 8) as u32, is_float: false }),
+                !(n == 1 || n == 2 || n == 4 || n == 8 || n == 16) ==> r is None
+        {
+            if n == 1 || n == 2 || n == 4 || n == 8 || n == 16 { Some(Type { bits_: (n as u32) * 8, is_float: false }) } else { None }
+        }
     }
+    pub const I8: Type = Type { bits_: 8, is_float: false };
+    pub const I16: Type = Type { bits_: 16, is_float: false };
+    pub const I32: Type = Type { bits_: 32, is_float: false };
+    pub const I64: Type = Type { bits_: 64, is_float: false };
+    pub const I128: Type = Type { bits_: 128, is_float: false };
+    pub const F32: Type = Type { bits_: 32, is_float: true };
+    pub const F64: Type = Type { bits_: 64, is_float: true };
 }
